@@ -286,12 +286,30 @@ func stripChainReturnValue(top, parent *valueProperty, this_ propertySet, key in
 	}
 	if this.key == key {
 		// caller ensures that this != top/parent
-		parent.chain = this.chain
-		this.chain = nil
-		return this.val, top
+		// The links above the match may be shared with by-value copies of the
+		// owner (cells are copied around as structs), so rebuild them instead
+		// of unlinking in place.
+		return this.val, copyChainWithout(top, this)
 	}
 	if this.chain == nil || this.chain == noProperty {
 		return nil, top
 	}
 	return stripChainReturnValue(top, this, this.chain, key)
+}
+
+// copyChainWithout returns a fresh copy of the links from top down to (but
+// excluding) drop, continuing with whatever followed drop.  No existing link
+// is modified.
+func copyChainWithout(top, drop *valueProperty) propertySet {
+	newTop := &valueProperty{nil, top.key, top.val}
+	tail := newTop
+	for cur := top.chain; cur != propertySet(drop); {
+		link := cur.(*valueProperty)
+		dup := &valueProperty{nil, link.key, link.val}
+		tail.chain = dup
+		tail = dup
+		cur = link.chain
+	}
+	tail.chain = drop.chain
+	return newTop
 }
